@@ -19,6 +19,9 @@ import (
 var c18Strings = []string{"", "a", "abc def", "quote\"inside", "back\\slash", "new\nline", "tab\ttab", "cr\rlf\n", "bell\a", "\x00nul", "\x1f",
 	"é", "日本語", "😀 emoji", "a,b", "#hash", "{brace}", "[bracket]", "$dollar", "true", "null", "\"\"\"", "\\\"", "\\u0041", "/slash", " ", "\x7f"}
 
+// the replacement character itself (valid UTF-8, three bytes) and code points beyond the BMP, printable or not
+var c18Unicode = []string{"caf\ufffd", "\ufffd", "\ufffd\ufffd x", "\U000F0001", "tag\U000E0001", "\U0010FFFF", "music \U0001D173", "😀\ufffd"}
+
 var c18Names = []string{"a", "b1", "_x", "Name", "true_", "k2", "z_9", "camelCase"}
 
 func c18Gen(r *Rng, depth int, badKeys bool) interface{} {
@@ -258,11 +261,16 @@ func init() {
 	props["C18"] = func(o *Out, rng *Rng, tier string) {
 		defer func() { ggql.Sort = false }()
 		// every single string of the special alphabet, and every pair (thorough), in both formats
-		for _, s := range c18Strings {
+		for _, s := range append(append([]string{}, c18Strings...), c18Unicode...) {
 			for _, ind := range []int{-1, 0, 2} {
 				c18One(o, s, ind, true, "strings")
 				c18One(o, s, ind, false, "strings")
 			}
+		}
+		// the same as map keys (JSON member names go through the string writer) and inside lists
+		for _, s := range c18Unicode {
+			c18One(o, map[string]interface{}{"k": s, "l": []interface{}{s, s}}, -1, true, "strings")
+			c18One(o, map[string]interface{}{s: int64(1)}, 2, false, "strings")
 		}
 		// neighbours: every ordered pair of special strings, and of element kinds, adjacent in a list (separators
 		// and delimiters are decided per neighbour in the tight SDL mode)
